@@ -258,6 +258,7 @@ def write_evidence(args, seed, results, n_obl, n_dis, bounded, undecided, violat
             "known_findings_reported": [k["obligation"] for k, _, _ in known_hits],
             "assumption_audits": [dict(a, unit=r["unit"]) for r in results for a in r.get("audits", [])],
             "samples": samples or [{"note": "no obligation ran"}],
+            "stability_recheck": {r["unit"]: r["stability"] for r in results if r.get("stability")},
             "units": [{"unit": r["unit"], "backend": r["backend_label"], "wall_s": round(r.get("wall_s", 0), 2),
                        "obligations": [dict({"id": o["id"], "status": o["status"], "time_s": o.get("time_s"),
                                              "bounded": o.get("bounded", False)},
